@@ -476,6 +476,11 @@ CORPUS = [
     # C18-F1 (known): the column of a loud comment is taken from codemap, which knows only LF and counts a BOM
     ("scss", "a{b:c}\n  /* x\n      y */\n"),
     ("scss", "  /*\n    a */"),
+    # false alarms of earlier versions of the rewriters (kept so that they stay repaired):
+    ("scss", "a {\n  @box-shadow: $btn-focus-box-shadow, $btn-active-box-shadow;\n}"),   # `$x` in an unknown at-rule is raw text
+    ("scss", "$v-1: 1;\na{--c: $v-1, -1 + 3px;\n w: $v-1}"),                              # ... and in a custom property
+    ("scss", "\ufeffa {\n  color: red\n}\n"),                                           # a second BOM is not "a leading BOM"
+    ("scss", "a{--c:  1.25 < 2 ;}"),                                                     # whitespace in a custom property is significant
 ]
 
 
@@ -521,10 +526,14 @@ def run(tier, seed):
         "two failing compilations count as agreeing whatever their messages (the property says 'or both fail')",
         "error spans are reconstructed from codemap's (line, column): lines split on LF, columns count characters",
     ]
+    import time
+    t0 = time.time()
     ck.do_prove(cores=("lex",))
     if not ck.do_build_runner():
         ck.unproved("correspondence-broken", {"why": "runner does not build against /repo", "error": getattr(ck, "build_error", "")})
         return ck.finish()
+    ck.cov["phase_wall"] = {"prove+build_s": round(time.time() - t0, 1)}
+    t0 = time.time()
     pool = RunnerPool()
     cases, _ = corpus.load()
     cases = [c for c in cases if len(c["input"]) <= 1500]
@@ -603,6 +612,26 @@ def run(tier, seed):
         add("norm:keyword", f"@function f(${n1}){{@return ${n1}}} z{{y: f(${n2}: 1)}}", "scss", extra=(n1, n2))
         add("norm:variable-sass", f"${n1}: 1\nz\n  y: ${n2}\n", "sass", extra=(n1, n2))
 
+    # ---- (5) the column a loud comment is re-indented by (C18-F1): model tie ----------------------
+    col_cases = []
+    for _ in range(120 if quick else 3000):
+        k = rng.choice(["lf", "lf", "crlf", "cr", "ff"])
+        bom = "\ufeff" if rng.random() < 0.25 else ""
+        before = "".join(rng.choice(["x{y:z}", "$v: 1;", "", "q{r:s}  "]) + "\n" for _ in range(rng.randint(0, 3)))
+        n1 = rng.randint(0, 6)
+        inds = [rng.randint(0, 10) for _ in range(rng.randint(1, 3))]
+        pre = bom + nl_subst(k, before) + " " * n1
+        comment = "/* L0" + "".join("\n" + " " * n + f"L{i + 1}" for i, n in enumerate(inds)) + " */"
+        src = pre + nl_subst(k, comment) + nl_subst(k, "\n")
+        idx = add("comment-column", src, "scss", extra=(pre, inds, k, bool(bom)))
+        col_cases.append(idx)
+    col_lines = []
+    for idx in col_cases:
+        pre = meta[idx][4][0]
+        col_lines += [f"lex column 1 {hexs(pre)}", f"lex column 0 {hexs(pre)}"]
+    col_outs = driver(col_lines) if col_lines else []
+    col_model = {idx: (col_outs[2 * n], col_outs[2 * n + 1]) for n, idx in enumerate(col_cases)}
+
     answers = g.run_many(pool, jobs, timeout=5.0)
     outs = [outcome(a) for a in answers]
     normeq = dict(zip(names, driver(norm_lines))) if names else {}
@@ -622,6 +651,27 @@ def run(tier, seed):
             if o[0] != "err":
                 ck.fail.append({"relation": rel, "source": src, "syntax": "css", "observed": list(o),
                                 "expected_by_property": "rejected in CSS mode", "tags": []})
+            continue
+        if rel == "comment-column":
+            pre, inds, style, bom = extra
+            af, sp = (int(x.split()[1]) for x in col_model[k])
+
+            def rendered(col):
+                return "/* L0" + "".join("\n" + " " * max(0, n - col) + f"L{i + 1}" for i, n in enumerate(inds)) + " */"
+
+            got = re.findall(r"/\*.*?\*/", o[1] or "", re.S)
+            got = got[-1] if got else None
+            ck.count((rel, src), af != sp or any(inds))
+            ck.hist(f"comment-column:{style}{'+bom' if bom else ''}:{'as-found=spec' if rendered(af) == rendered(sp) else 'as-found!=spec'}")
+            if got != rendered(af):
+                ck.cov["model_disagreements"] += 1
+                if len(ck.disagreements) < 10:
+                    ck.disagreements.append({"relation": rel, "source": src, "model_as_found": rendered(af), "grass": got})
+            if got != rendered(sp):
+                # the property's reading (column in tokens of the comment's own line): violated
+                tags = ["loud-comment-column"] if got == rendered(af) else []
+                ck.fail.append({"relation": rel, "source": src, "syntax": "scss", "observed": got, "expected_by_property": rendered(sp),
+                                "model_as_found": rendered(af), "tags_precomputed": tags, "tags": []})
             continue
         if rel.startswith("norm:"):
             n1, n2 = extra
@@ -696,7 +746,7 @@ def run(tier, seed):
     seen_rel = {}
     reported = 0
     for f in ck.fail:
-        tags = classify(f)
+        tags = f.get("tags_precomputed") or classify(f)
         f["tags"] = tags
         key = (f["relation"], tuple(tags))
         seen_rel[key] = seen_rel.get(key, 0) + 1
@@ -711,6 +761,7 @@ def run(tier, seed):
         ck.unproved("correspondence-broken", {"correspondence": "lexer positions / identifier normalisation (Grass.Lexer) vs grass",
                                               "cases": ck.disagreements})
     ck.cov["metamorphic_part_is_testing"] = True
+    ck.cov["phase_wall"]["cases_s"] = round(time.time() - t0, 1)
     return ck.finish()
 
 
